@@ -327,6 +327,15 @@ func runConfig(id string, toks []string) (res string) {
 func runHistory(ops []string) string {
 	dir := tempDir()
 	defer os.RemoveAll(dir)
+	// dirname=<hex>: the storage lives in a sub-directory of that name (Config.StoragePath defaults to the accessory's
+	// name, which may contain any character a file name may contain)
+	if len(ops) > 0 && strings.HasPrefix(ops[0], "dirname=") {
+		dir = filepath.Join(dir, string(unhex(ops[0][8:])))
+		if err := os.MkdirAll(dir, 0777); err != nil {
+			return "dirname-unusable"
+		}
+		ops = ops[1:]
+	}
 	cfg := hc.Config{}
 	var w *world
 	ids := map[string]*identity{}
